@@ -1,5 +1,5 @@
 (* Proofs/ParseSim.v — capacity independence: two well-formed slices with the same bytes within the same
-   length give the same Parse result, outside the recorded ARP class. *)
+   length give the same Parse result (for every slice, after the repair of layer_frame.go:240). *)
 From PV Require Import Base.Prelude Base.Slice Model.Parse Spec.RFC Model.ParseKnown Proofs.Parse.
 Open Scope N_scope.
 Open Scope res_scope.
@@ -161,27 +161,21 @@ Proof.
 Qed.
 
 Lemma parse_arp_sim c s s' f :
-  sim s s' -> f_offP f = 14%nat -> (14 <= len s)%nat -> arp_ok s -> parse_arp c s' f = parse_arp c s f.
+  sim s s' -> f_offP f = 14%nat -> (14 <= len s)%nat -> parse_arp c s' f = parse_arp c s f.
 Proof.
-  intros Hs H0 H1 Hk. assert (H1' : (14 <= len s)%nat) by exact H1. pose proof (sim_slfrom _ _ 14 Hs H1') as Hp.
+  intros Hs H0 H1. assert (H1' : (14 <= len s)%nat) by exact H1. pose proof (sim_slfrom _ _ 14 Hs H1') as Hp.
   pose proof (sim_wfx _ _ Hs) as Hwf.
   unfold parse_arp.
   rewrite (payload_view_sim s s') by (cbn; auto; lia). rewrite (payload_view_pos s) by (cbn; auto; lia).
   cbn [f_offP set_id]. rewrite H0. cbn [bind len].
   rewrite (sim_idx _ _ _ Hp).
-  destruct (Nat.ltb_spec (len s - 14) 28) as [Hlt|Hge]; cbn [bind].
-  - rewrite idx_ok by (cbn [len]; destruct Hk as [?|[? _]]; lia). cbn [bind arr].
-    rewrite nth_skipn_add. change (14 + 4)%nat with 18%nat.
-    destruct (N.eqb_spec (nth 18 (arr s) 0) 6) as [E|E]; cbn [negb]; [|reflexivity].
-    destruct Hk as [Hk|[_ Hk]]; [|congruence].
-    rewrite !(sim_bytes_at _ _ _ _ Hp) by (cbn [len]; lia). reflexivity.
-  - rewrite !(sim_bytes_at _ _ _ _ Hp) by (cbn [len]; lia). reflexivity.
+  destruct (Nat.ltb_spec (len s - 14) 28) as [Hlt|Hge]; cbn [bind]; [reflexivity|].
+  rewrite !(sim_bytes_at _ _ _ _ Hp) by (cbn [len]; lia). reflexivity.
 Qed.
 
-Theorem parse_sim c s s' :
-  sim s s' -> k_arp_unsafe (view s) = false -> parse c s' = parse c s.
+Theorem parse_sim c s s' : sim s s' -> parse c s' = parse c s.
 Proof.
-  intros Hs Hk. pose proof (sim_wfx _ _ Hs) as Hwf. unfold parse, ether_is_valid.
+  intros Hs. pose proof (sim_wfx _ _ Hs) as Hwf. unfold parse, ether_is_valid.
   rewrite (sim_len _ _ Hs).
   destruct (Nat.leb_spec 14 (len s)) as [Hlen|Hlen]; cbn [bind]; [|reflexivity].
   unfold ether_src, ether_dst, ether_header_len, ether_type.
@@ -189,6 +183,7 @@ Proof.
   unfold bytes_at.
   repeat (rd; cbn [bind]). change (12 + 1)%nat with 13%nat.
   set (et := be16 (nth 12 (arr s) 0) (nth 13 (arr s) 0)) in *.
+  match goal with |- context [if Nat.ltb ?a ?b then _ else _] => destruct (Nat.ltb_spec a b) end; [reflexivity|].
   destruct (is_unicast_mac _) eqn:Hu; cbn [negb]; [|reflexivity].
   destruct (et <? 1536); [reflexivity|].
   destruct (N.eqb_spec et 2048) as [E1|E1].
@@ -196,24 +191,23 @@ Proof.
   destruct (N.eqb_spec et 34525) as [E2|E2].
   { apply parse_ip6_sim; auto. }
   destruct (N.eqb_spec et 2054) as [E3|E3].
-  { apply parse_arp_sim; auto. apply known_arp_ok; auto. }
+  { apply parse_arp_sim; auto. }
   repeat match goal with |- context [if ?c then _ else _] => destruct c end;
     try reflexivity; apply parse_leaf_sim; auto.
 Qed.
 
 (* the result depends only on the bytes within the length *)
-Theorem parse_len_only_partial c s s' :
-  wf s -> wf s' -> len s = len s' -> view s = view s' -> k_arp_unsafe (view s) = false ->
-  parse c s = parse c s'.
+Theorem parse_len_only c s s' :
+  wf s -> wf s' -> len s = len s' -> view s = view s' -> parse c s = parse c s'.
 Proof.
-  intros H1 H2 H3 H4 Hk. symmetry. apply parse_sim; [constructor; auto|exact Hk].
+  intros H1 H2 H3 H4. symmetry. apply parse_sim. constructor; auto.
 Qed.
 
-Corollary parse_canon c s : wf s -> k_arp_unsafe (view s) = false -> parse c s = parse c (of_bytes (view s)).
-Proof. intros Hwf Hk. symmetry. apply parse_sim; [apply sim_canon; exact Hwf|exact Hk]. Qed.
+Corollary parse_canon c s : wf s -> parse c s = parse c (of_bytes (view s)).
+Proof. intros Hwf. symmetry. apply parse_sim. apply sim_canon; exact Hwf. Qed.
 
 Example parse_len_only_nonvacuous :
   let s := of_bytes ex_arp28 in let s' := of_bytes_cap ex_arp28 [170;170;170] in
-  wf s /\ wf s' /\ len s = len s' /\ view s = view s' /\ k_arp_unsafe (view s) = false /\
+  wf s /\ wf s' /\ len s = len s' /\ view s = view s' /\
   (cap s <> cap s')%nat /\ is_ok (parse cfg0 s) = true.
 Proof. vm_compute. repeat split; try lia; try reflexivity. Qed.
